@@ -191,9 +191,10 @@ CLAIMED = {
         "the status computed there says replicas = readyReplicas = spec.replicas (ConvergedStatus.v); FULL MODEL (RoundExec/RoundLift/RoundChain.v) — one fair "
         "round of the full reconcile + environment model (revision phase, claiming, planner, executor, status write, truncation, kubelet) of a regular world has "
         "exactly the members of the abstract round, hence along the fair rounds of the full model the pods converge within mu rounds as long as every round "
-        "starts from a regular world (non-vacuity: a concrete 8-world chain, RoundExample.v); QUIET (QuietProofs.v) — in a world satisfying the decidable "
+        "starts from a regular world — of which only the revision-phase part (rev_quiet) is assumed per round, the rest is preserved by the rounds (KeepsSet.v: a reconcile writes the set's status only) — (non-vacuity: a concrete 8-world chain, RoundExample.v); QUIET (QuietProofs.v) — in a world satisfying the decidable "
         "condition quietb a fault-free reconcile succeeds, leaves the API state unchanged and logs list/get calls only. "
-        "PARTIAL: that regularity is preserved by a round of the full model, and that a fair history ends in a quietb world, are evaluated inside coqc (round_check "
+        "From hypotheses on the initial world only when the revision list is within revisionHistoryLimit (C02_full_model_converges_closed, RoundRevs.v). "
+        "PARTIAL: the case of a longer revision list (truncation in mid-rollout; rev_quiet is then a per-round hypothesis), and that a fair history ends in a quietb world, are evaluated inside coqc (round_check "
         "on worlds observed at round boundaries of histories and on synthetic settled worlds; quietb on the final world of every history), not proved. Both are "
         "decided on the implementation on every generated history (chaotic prefix of reconciles, kubelet events, partial cache refreshes, faults, edits that stop; "
         "fair suffix): converged, status = census, last two reconciles write nothing. The environment model (Env.v) is compared with the real world after every op inside coqc.",
